@@ -781,21 +781,23 @@ func (s *UploadStream) Resume() (int64, error) {
 		return 0, fmt.Errorf("stream not pristine")
 	}
 
-	// get marker
+	// get marker, the stream only adopts it after all checks passed as an
+	// abort removes the marker of the stream
+	var marker *BucketMarker
 	err := s.bucket.markers.FindOne(s.context, bson.M{
 		"files_id": s.id,
-	}).Decode(&s.marker)
+	}).Decode(&marker)
 	if err != nil {
 		return 0, err
 	}
 
 	// check marker
-	if s.marker.State != BucketMarkerStateUploading {
+	if marker.State != BucketMarkerStateUploading {
 		return 0, fmt.Errorf("invalid marker state")
 	}
 
 	// check marker chunk size
-	if s.marker.ChunkSize != s.chunkSize {
+	if marker.ChunkSize != s.chunkSize {
 		return 0, fmt.Errorf("marker chunk size does not match")
 	}
 
@@ -842,6 +844,7 @@ func (s *UploadStream) Resume() (int64, error) {
 	}
 
 	// set state (expected equals the count of valid chunks seen)
+	s.marker = marker
 	s.chunks = expected
 	s.length = length
 
